@@ -242,6 +242,15 @@ CLAIMS['C32'] = dict(
     design='3/C32', note='Shell unquoting of the command string, option spelling variants, relative-path resolution and the "no others" clause are input/output behaviour of a hand-written '
                          'parser on arbitrary strings and are not decided.')
 
+CLAIMS['C33'] = dict(
+    technique='static analysis: partial evaluation of the interpreter\'s character trie (multiComparePercent) on each constant %cmd% string with the token kept symbolic, '
+              'Python ast of tools/matchcompiler.py::_compileCmd, comparison of the Token predicates / operators / constants of the two sides, pointer-advance accounting',
+    text='Decides the agreement of the %command% vocabulary of the two matchers (a necessary condition): for each of the 15 commands in the match compiler\'s table the interpreter, '
+         'specialised to that command, reaches a match, guards it with the same Token predicates, comparison operators and constants as the expression the match compiler emits '
+         '(one tabled implied conjunct for %varid%), and advances the pattern pointer by exactly the length of the command; the commands the property names are in the table.',
+    design='3/C33', note='Alternatives (|), optional ([..]) and negated (!!) tokens, multi-token sequencing and the control flow the match compiler generates - i.e. equivalence of the two '
+                         'matchers on arbitrary patterns and token sequences - are program equivalence and are not decided.')
+
 # rules added while triaging seeded changes and replayed defects (see DESIGN.md 8.4/8.5); appended to the decided text of each claim
 EXTRA = {
     'C05': 'R05.2: token lists are rendered with line breaks / line numbers / file names only by the printers of the Token class. R05.3: a token line is compared with a '
@@ -300,7 +309,6 @@ NOT_APPLICABLE = {
     'C08': 'agreement with a reference compiler\'s name lookup over all programs (differential, not source analysis)',
     'C09': 'correctness of the conversion-rule computation over all operand type combinations is a function-correctness proof; the platform table it reads is decided under C10',
     'C11': 'output equivalence with a reference preprocessor over all sources',
-    'C33': 'equivalence of two matchers over all token sequences (program equivalence)',
     'C35': 'consistency with clang\'s resolution and crash-freedom on arbitrary AST dumps are value-dependent',
 }
 
